@@ -63,6 +63,8 @@ pub enum K {
     OpenSeekRead,
     /// macro: seek somewhere inside the file, then truncate there
     SeekTruncate,
+    /// a write hit by a transient storage fault and retried by the caller
+    WriteRetry,
 }
 
 #[derive(Clone, Debug)]
@@ -142,6 +144,7 @@ impl GenCfg {
                 (K::NewFileWritten, 10),
                 (K::OpenSeekRead, 6),
                 (K::SeekTruncate, 5),
+                (K::WriteRetry, 5),
             ],
             invalid_names: false,
             rich_names: false,
@@ -377,6 +380,7 @@ pub fn decode_op(gc: &GenCfg, nt: &NameTable, cs: u32, r: &RawOp, mem: &mut Vec<
             Op::CreateDir { via, path: p, keep }
         }
         K::Write => Op::Write { h, len: io_len(r.n, cs, gc.max_io_pct), seed: (r.a >> 8) as u8 },
+        K::WriteRetry => Op::WriteRetry { h, len: io_len(r.n, cs, gc.max_io_pct), seed: (r.a >> 8) as u8, k: (r.b % 24) * (1 + r.c % 3), interrupted: r.c & 7 == 0 },
         K::Read => Op::Read { h, len: io_len(r.n, cs, gc.max_io_pct) },
         K::Seek => {
             let (whence, off) = seek_off(r.x, r.n, cs);
